@@ -2,12 +2,11 @@ SPECIFICATION Spec
 CONSTANTS
     N = 3
     K = 2
-    Variant = "current"
+    Variant = "strict"
 INVARIANT PivotsAreMinorRatios
 INVARIANT FactorsExact
 INVARIANT SpdAccepted
 INVARIANT ErrorClause
 INVARIANT OkIsFinite
 INVARIANT DefectExtent
-INVARIANT Replay
 CHECK_DEADLOCK FALSE
